@@ -244,6 +244,13 @@ def main(argv):
                     used.append(idx)
                 names = [p0.circprops[used[0]]["name"], p0.circprops[used[1]]["name"]]
                 vk = "Vs" if kind == "e" else "Tset"
+                # anisotropic materials in every reciprocity problem (the couplings of a symmetric material tensor are still symmetric; a
+                # terminal quantity computed with the wrong tensor component is not)
+                for m_ in p0.blockprops:
+                    if kind == "e":
+                        m_["ey"] = m_["ex"] * rng.choice([3.0, 0.4])
+                    else:
+                        m_["Ky"] = m_["Kx"] * rng.choice([3.0, 0.4])
                 for bp in p0.bdryprops:
                     bp[vk] = 0.0; bp["qs"] = 0.0; bp["c1"] = 0.0; bp["Tinf"] = 0.0
                 for c in p0.circprops:
@@ -421,6 +428,10 @@ def main(argv):
             stats["vanishing_frequency_" + (lam or "solid")] = stats.get("vanishing_frequency_" + (lam or "solid"), 0) + 1
             ck.case(("vanishing-frequency", axi, lam, t), nontrivial=True)
             sc = max(max(abs(v) for v in xs), 1e-300)
+            if sc < 1e-16 and max(abs(v) for v in xh) < 1e-16:
+                # the drawn problem is not excited at all (the source sits in a material no region uses): both fields are rounding noise
+                stats["vanishing_frequency_unexcited"] = stats.get("vanishing_frequency_unexcited", 0) + 1
+                continue
             err = max(abs(h - s) for h, s in zip(xh, xs)) / sc
             if solidcirc:
                 stats["vanishing_frequency_solid_circuit"] = stats.get("vanishing_frequency_solid_circuit", 0) + 1
